@@ -76,50 +76,15 @@ def build(idx, sym, spec, m=None, top=True):
         t = sym.text(spec['text']); out['_text'] = t
         mp = spec['map']
         def arcvec(xs): return Ref(Cell(vec([mkstr(x) for x in xs]), tag='heap'))
-        ms = mp['mappings']
-        if isinstance(ms, dict):
-            from . import codec
-            # template: a mappings string in which every '?' is a symbolic single-digit VLQ field (value < max)
-            bs, segs, cur = [], [], []
-            lim = ms.get('max', 4)
-            for ch in ms['template']:
-                if ch in ',;':
-                    if cur: segs.append(cur); cur = []
-                    segs.append(ch); bs.append(ord(ch)); continue
-                if ch == '?':
-                    c = z3.BitVec('sm%d' % sym.n, 8); sym.n += 1
-                    v = spec_b64_value(c)
-                    sym.st.pc.append(z3.And(v != 255, z3.ULT(v, lim)))
-                    cur.append([v & 31]); bs.append(c)
-                else:
-                    v = B64_ALPHABET.index(bytes([ord(ch)]))
-                    if v & 32: raise Inconclusive('template digits must be terminal digits')
-                    cur.append([z3.BitVecVal(v, 8)]); bs.append(ord(ch))
-            if cur: segs.append(cur)
-            mt = StrV(tuple(bs))
-            if ms.get('consistent', True):
-                exp = codec.spec_decode(sym.st, segs)
-                lines = spec['text'].split('\n')
-                prev = None
-                for (l, c, o) in exp:
-                    ll = len(lines) if not spec['text'].endswith('\n') else len(lines) - 1
-                    if l > max(ll, 1): sym.st.pc.append(z3.BoolVal(False)); continue
-                    sym.st.pc.append(z3.ULT(c, max(1, len(lines[l - 1]) + (1 if l < len(lines) else 0))))
-                    if prev is not None and prev[0] == l: sym.st.pc.append(z3.UGT(c, prev[1]))
-                    prev = (l, c)
-                    if o is not None:
-                        sym.st.pc.append(z3.ULT(o[0], max(1, len(mp.get('sources', [])))))
-                        if o[3] is not None: sym.st.pc.append(z3.ULT(o[3], max(1, len(mp.get('names', [])))))
-            out['_mappings'] = mt
-        else:
-            mt = mkstr(ms)
+        mt = mapping_text(sym, spec['text'], mp, out, '_mappings')
         def smap(mt, mp):
             root = mp.get('sourceRoot')
             return idx.mk('SourceMap', version=IntV(3, 'u8'), file=none(), sources=arcvec(mp.get('sources', [])), sources_content=arcvec(mp.get('sourcesContent', [])),
                           names=arcvec(mp.get('names', [])), mappings=Ref(Cell(mt, tag='heap')), source_root=(none() if root is None else some(Ref(Cell(mkstr(root), tag='heap')))), debug_id=none())
         inner_map = none()
         if spec.get('inner_map') is not None:
-            inner_map = some(smap(mkstr(spec['inner_map']['mappings']), spec['inner_map']))
+            imt = mapping_text(sym, spec.get('original_source') or '', spec['inner_map'], out, '_inner_mappings')
+            inner_map = some(smap(imt, spec['inner_map']))
         v = idx.mk('SourceMapSource', value=t, name=mkstr(spec.get('name', 'x.js')), source_map=smap(mt, mp),
                    original_source=(none() if spec.get('original_source') is None else some(mkstr(spec['original_source']))),
                    inner_source_map=inner_map, remove_original_source=bool(spec.get('remove_original_source', False)))
@@ -208,6 +173,45 @@ def prepare(m, J, st, spec, mf):
     return states
 
 
+def mapping_text(sym, text, mp, out, key):
+    """mappings of a source map given concretely or as a template with symbolic single-digit fields ('?')"""
+    ms = mp['mappings']
+    if not isinstance(ms, dict): return mkstr(ms)
+    from . import codec
+    bs, segs, cur = [], [], []
+    lim = ms.get('max', 4)
+    for ch in ms['template']:
+        if ch in ',;':
+            if cur: segs.append(cur); cur = []
+            segs.append(ch); bs.append(ord(ch)); continue
+        if ch == '?':
+            c = z3.BitVec('sm%d' % sym.n, 8); sym.n += 1
+            v = spec_b64_value(c)
+            sym.st.pc.append(z3.And(v != 255, z3.ULT(v, lim)))
+            cur.append([v & 31]); bs.append(c)
+        else:
+            v = B64_ALPHABET.index(bytes([ord(ch)]))
+            if v & 32: raise Inconclusive('template digits must be terminal digits')
+            cur.append([z3.BitVecVal(v, 8)]); bs.append(ord(ch))
+    if cur: segs.append(cur)
+    mt = StrV(tuple(bs))
+    if ms.get('consistent', True):
+        exp = codec.spec_decode(sym.st, segs)
+        lines = text.split('\n')
+        prev = None
+        for (l, c, o) in exp:
+            ll = len(lines) if not text.endswith('\n') else len(lines) - 1
+            if l > max(ll, 1): sym.st.pc.append(z3.BoolVal(False)); continue
+            sym.st.pc.append(z3.ULT(c, max(1, len(lines[l - 1]) + (1 if l < len(lines) else 0))))
+            if prev is not None and prev[0] == l: sym.st.pc.append(z3.UGT(c, prev[1]))
+            prev = (l, c)
+            if o is not None:
+                sym.st.pc.append(z3.ULT(o[0], max(1, len(mp.get('sources', [])))))
+                if o[3] is not None: sym.st.pc.append(z3.ULT(o[3], max(1, len(mp.get('names', [])))))
+    out[key] = mt
+    return mt
+
+
 def type_name(spec):
     if spec['kind'] == 'replace': return 'ReplaceSource<%s>' % type_of(spec['inner'])
     if spec['kind'] == 'cached': return 'CachedSource<%s>' % type_of(spec['inner'])
@@ -237,6 +241,14 @@ def concretize_spec(mdl, spec, m=None, st=None):
                 k = mval(mdl, b); ms += chr(k)
                 if m is not None and not m.valid(st, b == z3.BitVecVal(k, 8)): raise Undetermined(b == z3.BitVecVal(k, 8))
         out['map'] = dict(spec['map'], mappings=ms)
+    if '_inner_mappings' in spec:
+        ms = ''
+        for b in spec['_inner_mappings'].bytes():
+            if isinstance(b, int): ms += chr(b)
+            else:
+                k = mval(mdl, b); ms += chr(k)
+                if m is not None and not m.valid(st, b == z3.BitVecVal(k, 8)): raise Undetermined(b == z3.BitVecVal(k, 8))
+        out['inner_map'] = dict(spec['inner_map'], mappings=ms)
     if spec['kind'] == 'replace':
         reps = []
         for r in spec['replacements']:
